@@ -9,6 +9,7 @@ RELATED = {"C01": ["C01", "C11"], "C02": ["C02", "C11", "C01"], "C06": ["C06", "
            "C12": ["C12", "C10"], "C14": ["C14", "C11"], "C18": ["C18", "C11"],
            "C09": ["C09"], "C10": ["C10", "C18"], "C11": ["C11"], "C15": ["C15"],
            "C16": ["C16", "C20"], "C19": ["C19"], "C20": ["C20"]}
+CHECKS = json.load(open(os.environ["SEED_CHECKS"])) if os.environ.get("SEED_CHECKS") else {}
 NOTES = json.load(open("/verif/seeded/notes.json")) if os.path.exists("/verif/seeded/notes.json") else {}
 
 def sh(cmd, cwd=None, timeout=3600):
@@ -42,7 +43,7 @@ for d in dirs:
                 rec["apply_error"] = o[-300:]
             else:
                 sh("git -C /repo reset -q")  # keep the change in the working tree only
-                for p in RELATED.get(prop, [prop]):
+                for p in CHECKS.get(d) or RELATED.get(prop, [prop]):
                     t0 = time.time()
                     rc, o = sh("python3 /verif/bin/check %s --tier quick" % p, cwd="/verif")
                     viol = [l[:300] for l in o.split("\n") if l.startswith("violation:")]
